@@ -51,7 +51,7 @@ PROPS = {
         ],
     },
     "C04": {
-        "modules": ["SamlModel.Props.C04", "SamlModel.Props.HandlerGen", "SamlModel.Props.Stateless"],
+        "modules": ["SamlModel.Props.C04", "SamlModel.Props.HandlerGen", "SamlModel.Props.SendBack", "SamlModel.Props.Stateless"],
         "translated": ["BuildRedirectQuery", "getResponseCert"],
         "trusted_base": COMMON_TRUST + CB_TRUST + [
             "RSA / SHA are not modelled: C04_redirect_query states that an independent verifier recovers exactly the signed octets, the algorithm URI and the signature bytes from the query sent; that rsa.VerifyPKCS1v15 then accepts is the law verify(pk, m, sign(sk, m)) of the scheme, observed with real keys on every redirect reply",
@@ -63,7 +63,7 @@ PROPS = {
                         "a registered consumer URL contains no '#' (a fragment would swallow the query); URLs with an own query are covered by C04_redirect_url_with_query under the stated hypothesis that they do not themselves carry a SAMLResponse / RelayState / SigAlg / Signature parameter"],
     },
     "C05": {
-        "modules": ["SamlModel.Props.C05", "SamlModel.Props.Stateless"],
+        "modules": ["SamlModel.Props.C05", "SamlModel.Props.SendBack", "SamlModel.Props.Stateless"],
         "translated": ["signaturePostProvided", "signaturePostVerificationNecessary", "signatureRedirectVerificationNecessary",
                        "verifyRedirectSignature", "verifyPostSignature", "certificateCheckNecessary", "checkCertificate", "isXSBooleanTrue"],
         "trusted_base": COMMON_TRUST + SSO_TRUST + [
@@ -72,7 +72,7 @@ PROPS = {
         "assumptions": ["Form.WF: the binding decision of getAuthRequestFromRequest is POST or Redirect (fingerprinted function; checked on every case by the sso correspondence)"],
     },
     "C06": {
-        "modules": ["SamlModel.Props.C06", "SamlModel.Props.Stateless"],
+        "modules": ["SamlModel.Props.C06", "SamlModel.Props.SendBack", "SamlModel.Props.Stateless"],
         "translated": ["checkRequestRequiredContent", "checkIfRequestTimeIsStillValid", "verifyRequestDestinationOfAuthRequest", "ServiceProvider_GetEntityID"],
         "trusted_base": COMMON_TRUST + SSO_TRUST + [
             "time.Parse / time.Now are oracles (Ora.timeParse, Ora.now) in C06_accept_implies_valid and its corollaries; for the library's DefaultTimeFormat time.Parse is additionally modelled (Lib.Time.parseDefault, written from Go 1.23's time/format.go; compared with time.Parse on a boundary corpus and 2*10^4 (thorough 3*10^5) mutated strings on every run: `lib timeparse`) and C06_window_concrete / C06_zero_time_is_expired are stated over that model under the hypothesis ParsesAsGo; XML decoding (DecodeAuthNRequest incl. base64/DEFLATE) is an oracle whose failure is `decoded = none`",
@@ -80,7 +80,7 @@ PROPS = {
         "assumptions": ["wall-clock cases keep a 10-minute guard band; the exact boundary NotBefore <= now < NotOnOrAfter is covered by the theorem on the translated time.go"],
     },
     "C08": {
-        "modules": ["SamlModel.Props.C08", "SamlModel.Props.Stateless"],
+        "modules": ["SamlModel.Props.C08", "SamlModel.Props.SendBack", "SamlModel.Props.Stateless"],
         "translated": ["GetAcsUrlAndBindingForResponse", "checkRequestRequiredContent"],
         "trusted_base": COMMON_TRUST + SSO_TRUST + [
             "that the implementation writes exactly one reply and calls CreateAuthRequest at most once is observed by the harness (reply parser counts documents/forms; storage call log), the model's Result holds one of each by construction",
@@ -88,7 +88,7 @@ PROPS = {
         "assumptions": [],
     },
     "C01": {
-        "modules": ["SamlModel.Props.C01", "SamlModel.Props.HandlerGen", "SamlModel.Props.Stateless"],
+        "modules": ["SamlModel.Props.C01", "SamlModel.Props.HandlerGen", "SamlModel.Props.SendBack", "SamlModel.Props.Stateless"],
         "translated": ["getResponseCert", "Attributes_GetSAML", "Attributes_GetNameID", "IdentityProvider_loginResponse", "createSignature",
                        "Response_makeSuccessfulResponse", "Response_makeFailedResponse", "IdentityProvider_callbackHandleFunc", "IdentityProvider_errorResponse"],
         "trusted_base": COMMON_TRUST + CB_TRUST + [
@@ -97,7 +97,7 @@ PROPS = {
         "assumptions": ["Done() is owned by storage: the history theorem models completion as the only operation that sets it"],
     },
     "C03": {
-        "modules": ["SamlModel.Props.C03", "SamlModel.Props.HandlerGen", "SamlModel.Props.HandlerProps", "SamlModel.Props.Stateless"],
+        "modules": ["SamlModel.Props.C03", "SamlModel.Props.HandlerGen", "SamlModel.Props.HandlerProps", "SamlModel.Props.SendBack", "SamlModel.Props.Stateless"],
         "translated": ["Attributes_GetSAML", "Attributes_GetNameID", "getResponseCert", "getIssuer", "makeResponse", "makeAssertion", "Response_makeAssertionResponse", "Response_makeSuccessfulResponse", "Response_makeFailedResponse"],
         "trusted_base": COMMON_TRUST + CB_TRUST + [
             "makeSuccessfulResponse / makeAssertionResponse / makeFailedResponse / makeResponse / makeAssertion / getIssuer are translated (go2lean) and proved to build exactly the messages of the callback model (C03_success_message_is_generated, C03_failed_message_is_generated, C03_builders_refine); time.Now / Format are oracles of the generated code (Ora.now, Ora.m_Format); real functions vs generated definitions are compared on random arguments (`fn` ops, builders differential)",
@@ -137,7 +137,7 @@ PROPS = {
         "assumptions": ["the three callers (DecodeAuthNRequest, DecodeLogoutRequest via the SSO/logout form readers) reach the inflater only through InflateAndDecode (fingerprinted)"],
     },
     "C17": {
-        "modules": ["SamlModel.Props.C17", "SamlModel.Props.Stateless"],
+        "modules": ["SamlModel.Props.C17", "SamlModel.Props.SendBack", "SamlModel.Props.Stateless"],
         "translated": [],
         "trusted_base": COMMON_TRUST + [
             "html/template is not translated: its three escapers that act on the page (attrEscaper, urlFilter, urlNormalizer) and the splice of literal segments and escaped values are hand-modelled byte-exactly in Lib.Html / Lib.HtmlTok.page; the model is compared on every run with the bytes html/template writes for the library's own template constants and with the bodies the real callback, SSO-error and logout handlers send (`lib page`)",
@@ -170,7 +170,7 @@ PROPS = {
         "assumptions": ["scheme comparison follows net/url (scheme is lower-cased by the parser; schemes are case-insensitive per RFC 3986)"],
     },
     "C02": {
-        "modules": ["SamlModel.Props.C02", "SamlModel.Props.HandlerGen", "SamlModel.Props.HandlerProps", "SamlModel.Props.Stateless"],
+        "modules": ["SamlModel.Props.C02", "SamlModel.Props.HandlerGen", "SamlModel.Props.HandlerProps", "SamlModel.Props.SendBack", "SamlModel.Props.Stateless"],
         "translated": ["GetAcsUrlAndBindingForResponse"],
         "trusted_base": COMMON_TRUST + SSO_TRUST + CB_TRUST + [
             "the auto-submit form (action attribute) is covered byte-exactly by C17; the redirect URL assembly (two fingerprinted lines of sendBackResponse) is hand-modelled as redirectURL",
@@ -178,7 +178,7 @@ PROPS = {
         "assumptions": ["callback: 'registered' is by composition with the SSO theorem - the stored pair is the pair the SSO endpoint persisted (C02_sso_persists_registered_pair); storage is trusted to return what was stored"],
     },
     "C10": {
-        "modules": ["SamlModel.Props.C10", "SamlModel.Props.HandlerGen", "SamlModel.Props.Stateless"],
+        "modules": ["SamlModel.Props.C10", "SamlModel.Props.HandlerGen", "SamlModel.Props.SendBack", "SamlModel.Props.Stateless"],
         "translated": ["getResponseCert"],
         "trusted_base": COMMON_TRUST + SSO_TRUST + CB_TRUST + [
             "Model.Metadata (metadata / certificate / readiness handlers), Model.Logout, Model.AttrQuery: hand models tied by fingerprints and their correspondences",
@@ -187,7 +187,7 @@ PROPS = {
         "assumptions": ["a storage operation either succeeds or returns an error / malformed key record; panics inside storage are the integrator's"],
     },
     "C11": {
-        "modules": ["SamlModel.Props.C11", "SamlModel.Props.Stateless"],
+        "modules": ["SamlModel.Props.C11", "SamlModel.Props.SendBack", "SamlModel.Props.Stateless"],
         "translated": ["Endpoint_Absolute", "Endpoint_Relative", "relativeEndpoint", "absoluteEndpoint", "getResponseCert",
                        "signatureRedirectVerificationNecessary", "signaturePostVerificationNecessary", "endpointConfigToEndpoints", "NewEndpoint"],
         "trusted_base": COMMON_TRUST + SSO_TRUST + [
@@ -199,7 +199,7 @@ PROPS = {
                         "hunsigned (C11_want_signed_means_refused): the XML-DSig validator rejects a document without signature (goxmldsig; sampled)"],
     },
     "C09": {
-        "modules": ["SamlModel.Props.C09", "SamlModel.Props.HandlerGen", "SamlModel.Props.Stateless"],
+        "modules": ["SamlModel.Props.C09", "SamlModel.Props.HandlerGen", "SamlModel.Props.SendBack", "SamlModel.Props.Stateless"],
         "translated": ["certificateCheckNecessary", "checkCertificate", "equalCertificateText", "checkRequestRequiredContent", "verifyRequestDestinationOfAuthRequest",
                        "verifyRequestDestinationOfAttrQuery", "GetCertsFromKeyDescriptors", "getResponseCert", "GetAcsUrlAndBindingForResponse",
                        "signaturePostProvided", "signatureRedirectVerificationNecessary", "signaturePostVerificationNecessary", "verifyRedirectSignature", "verifyPostSignature"],
@@ -210,7 +210,7 @@ PROPS = {
         "assumptions": ["SpWF: a registered service provider has metadata with an SPSSODescriptor (NewServiceProvider refuses others); storage returns non-nil objects with nil errors"],
     },
     "C07": {
-        "modules": ["SamlModel.Props.C07", "SamlModel.Props.Stateless"],
+        "modules": ["SamlModel.Props.C07", "SamlModel.Props.SendBack", "SamlModel.Props.Stateless"],
         "translated": ["signatureRedirectVerificationNecessary", "signaturePostVerificationNecessary", "verifyRedirectSignature", "verifyPostSignature",
                        "certificateCheckNecessary", "checkCertificate", "checkRequestRequiredContent", "checkIfRequestTimeIsStillValid",
                        "verifyRequestDestinationOfAuthRequest", "verifyRequestDestinationOfAttrQuery", "GetAcsUrlAndBindingForResponse"],
